@@ -86,7 +86,20 @@ func Key6(p *core.Prog, r *core.Report) {
 			if name == "" {
 				key = fmt.Sprintf("%s|tuple#%d", cm.name, i)
 			}
-			t := info.TypeOf(tl.Elts[1])
+			val := ast.Unparen(tl.Elts[1])
+			t := info.TypeOf(val)
+			// an explicit conversion to an interface type keeps the operand's concrete type
+			for {
+				cv, ok := val.(*ast.CallExpr)
+				if !ok || !core.IsConversion(info, cv) || len(cv.Args) != 1 {
+					break
+				}
+				if _, isIface := t.Underlying().(*types.Interface); !isIface {
+					break
+				}
+				val = ast.Unparen(cv.Args[0])
+				t = info.TypeOf(val)
+			}
 			if t == nil {
 				r.Und("KEY-6", key, p.Pos(el.Pos()), "untyped value")
 				continue
